@@ -3568,7 +3568,10 @@ static int32 writeServerHello(ssl_t *ssl, sslBuf_t *out)
     }
 
 #  ifdef USE_STATELESS_SESSION_TICKETS
-    if (ssl->sid && ssl->sid->sessionTicketState == SESS_TICKET_STATE_RECVD_EXT)
+    /* Not in a handshake resumed by session id: its flight has no
+       NewSessionTicket, so the extension would promise one in vain */
+    if (ssl->sid && ssl->sid->sessionTicketState == SESS_TICKET_STATE_RECVD_EXT
+        && !(ssl->flags & SSL_FLAGS_RESUMED))
     {
         if (extLen == 0)
         {
@@ -3752,7 +3755,8 @@ static int32 writeServerHello(ssl_t *ssl, sslBuf_t *out)
 
 #  ifdef USE_STATELESS_SESSION_TICKETS
         if (ssl->sid &&
-            ssl->sid->sessionTicketState == SESS_TICKET_STATE_RECVD_EXT)
+            ssl->sid->sessionTicketState == SESS_TICKET_STATE_RECVD_EXT &&
+            !(ssl->flags & SSL_FLAGS_RESUMED))
         {
             /* This empty extension is ALWAYS an indication to the client that
                 a NewSessionTicket handshake message will be sent */
